@@ -50,6 +50,10 @@ def build(sb, rng, quick=True):
         open(p0, "wb").close()
         for j in range(1, k):
             os.link(p0, os.path.join(d, "h%d_%d" % (k, j)))
+    # symbolic links (unfollowed here): their own status record is what is measured - one link, the link's own size
+    os.symlink("nowhere", os.path.join(d, "ldang"))
+    os.symlink(".", os.path.join(d, "ldir"))
+    os.symlink("h5_0", os.path.join(d, "lhard5"))
     # owners
     for i, (u, g) in enumerate([(0, 0), (1, 2), (2, 1), (65534, 65534), (54321, 54322), (3, 0)]):
         p = os.path.join(d, "o%d" % i)
